@@ -156,11 +156,11 @@ theorem res_localLookup (C : Codec) (d : Disk) (kind : Kind) (hash : String) (si
       · rw [res_serveLocal]; exact hg
       · exact hg
 
-theorem res_fetchFromProxy (C : Codec) (d : Disk) {l : Lru} (hl : Inv l) (kind : Kind) (hash : String)
+theorem res_fetchCore (C : Codec) (d : Disk) {l : Lru} (hl : Inv l) (kind : Kind) (hash : String)
     (size offset : Int) (zstd : Bool) (pg : ProxyGet) (rnd : String) (hle : size ≤ l.res) :
-    (fetchFromProxy C d l kind hash size offset zstd pg rnd).1.lru.res = l.res - (if size > 0 then size else 0) := by
+    (fetchCore C d l kind hash size offset zstd pg rnd).1.lru.res = l.res - (if size > 0 then size else 0) := by
   have hrel := res_release hl size hle
-  unfold fetchFromProxy
+  unfold fetchCore
   cases pg with
   | error => exact hrel
   | notFound => exact hrel
@@ -178,6 +178,34 @@ theorem res_fetchFromProxy (C : Codec) (d : Disk) {l : Lru} (hl : Inv l) (kind :
         { size := foundSize, sizeOnDisk := (s.data.length : Int), random := rnd,
           legacy := decide (kind = .cas ∧ d.cfg.mode = .identity) } hle
       split <;> rename_i heq <;> rw [heq] at this <;> simp only at this ⊢ <;> exact this
+
+/-- the late reservation for a size-unknown fetch is returned on every path too -/
+theorem res_fetchFromProxy (C : Codec) (d : Disk) {l : Lru} (hl : Inv l) (kind : Kind) (hash : String)
+    (size offset : Int) (zstd : Bool) (pg : ProxyGet) (rnd : String) (hle : size ≤ l.res) :
+    (fetchFromProxy C d l kind hash size offset zstd pg rnd).1.lru.res = l.res - (if size > 0 then size else 0) := by
+  unfold fetchFromProxy
+  cases pg with
+  | error => exact res_fetchCore C d hl kind hash size offset zstd .error rnd hle
+  | notFound => exact res_fetchCore C d hl kind hash size offset zstd .notFound rnd hle
+  | found s fs =>
+    simp only
+    split
+    · rename_i hc
+      obtain ⟨hok, herr⟩ := res_reserve hl fs hc.2.1
+      have hinv2 := (inv_reserve hl fs).1
+      have hnp : ¬ size > 0 := by omega
+      cases hr : reserve l fs with
+      | mk lr rerr =>
+        rw [hr] at hok herr hinv2
+        simp only at hok herr hinv2 ⊢
+        cases rerr with
+        | some e => simp only [hnp, if_false]; rw [herr e rfl]; omega
+        | none =>
+          simp only
+          rw [res_fetchCore C d hinv2 kind hash fs offset zstd (.found s fs) rnd (by have := hok rfl; have := hl.res_nonneg; omega)]
+          have := hok rfl
+          simp only [hc.2.1, if_true, hnp, if_false]; omega
+    · exact res_fetchCore C d hl kind hash size offset zstd (.found s fs) rnd hle
 
 /-- **get returns its reservation on every path** (including every back-end fault) -/
 theorem res_getOp (C : Codec) {d : Disk} (h : DiskInv d) (kind : Kind) (hash : String) (size offset : Int)
